@@ -72,6 +72,14 @@ def cases(tier, seed):
                                 if d == 4 and tier == 'quick' and (prec == 'c' and st == 'rank2'):
                                     continue
                                 yield dict(base, form='ediv', eps=eps, prec=prec, st=st, seed=0)
+                    # the initial guess is one of the operands itself (a natural first guess for x / y is x)
+                    for st in ('x', 'y'):
+                        yield dict(base, form='ediv', eps=1e-8, prec=None, st=st, seed=0)
+                    if rx == 1 and rz == 1:
+                        # single precision operands
+                        yield dict(base, form='x/y', seed=0, dt='f32')
+                        for sk in ('float', 'int'):
+                            yield dict(base, form='s/y', seed=0, sk=sk, dt='f32')
                     if rx == 1:
                         yield dict(base, form='ediv_scalar', eps=1e-8, prec=None, st='none', seed=0)
 
@@ -96,6 +104,10 @@ def run_case(c):
     x, cx = build(sx, 'x', 0)
     xd = ref.contract(cx)
     y, yd, sz = _make_y(N, c['rz'])
+    f32 = c.get('dt') == 'f32'
+    if f32:
+        x, y = x.to(dtype=torch.float32), y.to(dtype=torch.float32)
+        xd, yd = ref.contract(x.cores), ref.contract(y.cores)
     nt = space.nontrivial(sx) or space.nontrivial(sz)
     u = 2.0 ** -53
     torch.manual_seed(c['seed'])
@@ -127,6 +139,10 @@ def run_case(c):
         st = None
         if c['st'] == 'rank2':
             st = build(space.tensor_struct(N, [1] + [2] * (d - 1) + [1], 'f64', 'gauss'), 'st', 0)[0]
+        elif c['st'] == 'x':
+            st = x
+        elif c['st'] == 'y':
+            st = y
         eps, num = c['eps'], xd
         f = lambda: torchtt.elementwise_divide(x, y, eps=eps, starting_tensor=st, preconditioner=c['prec'])
         site += '.prec_%s.start_%s' % (c['prec'], c['st'])
@@ -146,6 +162,9 @@ def run_case(c):
         return Outcome(key, nt, 'malformed', violations=[V(site + '.malformed_cores', ex)])
     nn = float(torch.linalg.norm(num))
     rel = float(torch.linalg.norm(q * yd - num)) / max(nn, 1e-300)
+    if f32:
+        u = 2.0 ** -24
+        site += '.float32'
     if not (rel <= 100 * eps + 1e4 * u):
         viol.append(V(site + '.residual_exceeds_100eps', '|q*y-x|/|x| = %.3e eps %.1e' % (rel, eps)))
     return Outcome(key, nt, 'rel/eps=1e%d' % int(np.floor(np.log10(max(rel / eps, 1e-30)))), violations=viol)
